@@ -105,3 +105,16 @@ CHECKS["C06"] = dict(
           "layering (C02-integer-levels mechanism, both outcomes must be rule-or-mechanism explained), asymmetric typeorder between two applicable "
           "registered types (C12 hook findings)."),
 )
+
+CHECKS["C20"] = dict(
+    engine="symx", category="model_checking", design_ref="DESIGN.md §6 C20",
+    technique="symbolic execution of the real dispatch with user predicates / type-order hooks / subtype hooks answering from solver variables and counting their consultations (z3 path classes); zero-consultation assertion on warm calls",
+    text=("Method sets annotated with harness classes, class_check(predicate) types and a user type carrying __type_order__/__is_supertype__ hooks "
+          "are warmed up with one call per argument class (bodies delegate through call_next and recurse, so continuation entries are warmed too); "
+          "every answer of a predicate, hook or issubclass on a harness class is a solver variable and every consultation is counted. On each path "
+          "class a repeated call that had succeeded must not move the counter (nor compare priorities); after a registration the function is "
+          "re-warmed and the same must hold."),
+    note=("Bounds: 3 classes, 3 methods (+1 late), 1 position, arguments K0/K1/object(); per-shape exploration budget 4 s quick / 60 s thorough: "
+          "shapes whose space is not exhausted are reported as inconclusive counts, never as passed-exhaustively. Calls that fail in the warm-up are "
+          "outside the statement."),
+)
